@@ -24,6 +24,7 @@ TRANSFORMS = [
     "only with option `nestedret=<r>`: for every fn item nested inside the extracted function body, `-> T` -> `-> (<r>: T)` so that the contract woven at anchor `nested <fn>` can name its result (nested fn items are otherwise kept in place, verbatim)",
     "only with option `nodecreases`: the marked attribute line `#[verifier::exec_allows_no_decreases_clause]` is put before the function: Verus then does not ask for a termination measure on its loops, i.e. termination is NOT proved for that function (used for retry loops that end with probability 1 only); nothing in the body changes",
     "only with option `fwdloops=T` (this Verus rejects `continue` inside `for` loops): `for v in a..b {` (a, b identifiers, literals or parenthesised expressions) -> `let mut vforK: T = a; while vforK < b { let v = vforK; vforK = vforK + 1;` (same iteration sequence; the counter is advanced before the body so that `continue` reaches the next value; the body is untouched). Applied after `revloops`, so `.rev()` loops keep their own rewriting",
+    "only with option `macroinst=<macro>@<file>[#k]` (functions and items that live in the body of a `macro_rules!` arm WITH metavariables, e.g. define_gfgen): before slicing, every `$name` of the arm is replaced by the corresponding argument tokens of the k-th invocation `<macro>!(..)` found in <file>, and `$crate` by `crate` - the substitution rustc performs for `ident` / `expr` fragments; parameter names and arguments are both read from the sources; arms with repetitions are refused. Slicing, the other transformations and the erasure check then work on the substituted text",
     "only with option `lebytes` (this Verus cannot attach a specification to the std byte-order conversions, whose signatures use the const expression `[u8; size_of::<T>()]`): `<int>::from_le_bytes(` -> `<int>_from_le_bytes(`, `<int>::from_be_bytes(` -> `<int>_from_be_bytes(` (int in u16/u32/u64/u128), and the method calls `.to_le_bytes()` / `.to_be_bytes()` -> `.vto_le_bytes()` / `.vto_be_bytes()`; the twins are declared in contracts/spec/lebytes_decl.vrs with the std semantics as ASSUMED contracts (trusted: std)",
     "only with option `revloops=<T>` (this Verus has no specification for Rev<Range>): `for v in (a..b).rev() {` -> `let mut vrev<k>: T = b; while vrev<k> > a { vrev<k> = vrev<k> - 1; let v = vrev<k>;` (k-th such loop; a, b are the literal or identifier bounds as written; the loop body is unchanged; same iteration sequence b-1, b-2, .., a)",
 ]
